@@ -377,13 +377,45 @@ def model_decl(index, models, ci):
     for f in models.fields(ci):
         meta = []
         ann = f.ann
-        if isinstance(ann, ast.Subscript) and ast.unparse(ann.value).split(".")[-1] == "Annotated" and isinstance(ann.slice, ast.Tuple):
-            meta = [ast.unparse(x) for x in ann.slice.elts[1:]]
+        mod_ = f.owner.module
+        for _ in range(5):  # a module-level alias (`Seconds = Annotated[float, ...]`) stands for what it abbreviates
+            if not isinstance(ann, (ast.Name, ast.Attribute)):
+                break
+            try:
+                sy = index.resolve_expr(mod_, ann)
+            except Exception:  # noqa: BLE001
+                sy = None
+            if sy is None or sy.kind != "assign" or sy.module is None:
+                break
+            d = [x for x in sy.module.defs.get(sy.qual.split(":")[1], []) if isinstance(x, (ast.Assign, ast.AnnAssign)) and x.value is not None]
+            if len(d) != 1:
+                break
+            ann, mod_ = d[0].value, sy.module
+        for x in ast.walk(ann):
+            if isinstance(x, ast.Subscript) and ast.unparse(x.value).split(".")[-1] == "Annotated" and isinstance(x.slice, ast.Tuple):
+                meta += [ast.unparse(y) for y in x.slice.elts[1:]]
         fields[f.name] = {"shape": _term_json(f.shape), "meta": meta,
                           "constraints": {k: _const_of(v) for k, v in f.field_kwargs.items() if k in CONSTRAINT_KEYS},
                           "default": None if f.default is None else _const_of(f.default),
                           "factory": None if f.default_factory is None else ast.unparse(f.default_factory)}
     return {"config": cfg, "fields": fields}
+
+
+def module_constants(m):
+    """{"mod:NAME": literal} for the module-level names in capitals bound once to a number, string or boolean"""
+    out = {}
+    for name, defs in m.defs.items():
+        if not name.isupper() or len(defs) != 1 or not isinstance(defs[0], (ast.Assign, ast.AnnAssign)) or defs[0].value is None:
+            continue
+        v = defs[0].value
+        if isinstance(v, ast.UnaryOp) and isinstance(v.op, ast.USub) and isinstance(v.operand, ast.Constant):
+            try:
+                out[f"{m.name}:{name}"] = -v.operand.value
+            except TypeError:
+                pass
+        elif isinstance(v, ast.Constant) and isinstance(v.value, (int, float, str, bool)):
+            out[f"{m.name}:{name}"] = v.value
+    return out
 
 
 def _load_decls():
@@ -467,6 +499,42 @@ def check_declarations(ctx: Ctx, files: List[str]):
                         witness={"parameter": p, "reference_default": _show_json(dv), "current_default": _show_json(cv)})
             else:
                 ctx.ok("G.4", site, "positional order and defaults as on the reference")
+    # named constants of the anchor files (and of the modules they import a constant from)
+    cmods = {m.name: m for m in mods}
+    for m in mods:
+        for st in ast.walk(m.tree):
+            if isinstance(st, ast.ImportFrom) and st.module and any(a.name.isupper() for a in st.names):
+                tm = index.modules.get(st.module) or index.modules.get(f"{m.package}.{st.module}" if st.level else st.module)
+                if tm is not None:
+                    cmods[tm.name] = tm
+        for x in ast.walk(m.tree):
+            if isinstance(x, ast.Attribute) and x.attr.isupper():
+                try:
+                    sy = index.resolve_expr(m, x)
+                except Exception:  # noqa: BLE001
+                    sy = None
+                if sy is not None and sy.kind == "assign" and sy.module is not None:
+                    cmods[sy.module.name] = sy.module
+    for m in cmods.values():
+        for key, rv in sorted(ref.get("constants", {}).items()):
+            if not key.startswith(m.name + ":"):
+                continue
+            name = key.split(":")[1]
+            cur_all = module_constants(m)
+            d = m.defs.get(name)
+            if not d:
+                continue
+            line = getattr(d[0], "lineno", 1)
+            if key not in cur_all:
+                ctx.bad("G.4", m.relpath, name, f"{name} = {ast.unparse(d[0].value)[:40] if getattr(d[0], 'value', None) is not None else '?'}",
+                        f"the constant {name} is no longer the literal {rv!r} of the reference (now `{ast.unparse(d[0].value)[:60] if getattr(d[0], 'value', None) is not None else '?'}`): "
+                        f"every computation that uses it changes with it", line, witness={"reference": rv})
+            elif cur_all[key] != rv or type(cur_all[key]) is not type(rv):
+                ctx.bad("G.4", m.relpath, name, f"{name} = {cur_all[key]!r}",
+                        f"the constant {name} is {cur_all[key]!r} where the reference declares {rv!r}: every computation that uses it changes with it",
+                        line, witness={"reference": rv, "current": cur_all[key]})
+            else:
+                ctx.ok("G.4", f"{m.relpath}:{line} {name}", f"constant as on the reference ({rv!r})")
     classes = {}
     for m in mods:
         for ci in m.classes.values():
@@ -527,3 +595,182 @@ def _show_shape(rf):
         return shape_str(from_json(rf["shape"])) + (f" with {rf['meta']}" if rf["meta"] else "")
     except Exception:  # noqa: BLE001
         return str(rf["shape"])[:60]
+
+
+# ---------------------------------------------------------------------------------- G.6 / G.7 order of effects
+ONE_SHOT = {"enumerate", "zip", "map", "filter", "iter", "reversed"}
+LOOKUP_ERRORS = {"KeyError", "IndexError", "AttributeError", "StopIteration", "LookupError", "ImportError", "ModuleNotFoundError"}
+# handlers of the reference tree that end without raising, by design (file, function, exception): the function reports the
+# failure through its return value / falls back to a default
+KNOWN_QUIET_HANDLERS = {
+    ("src/soundevent/audio/files.py", "is_audio_file", "sf.SoundFileError"),      # "is it audio?" -> False
+    ("src/soundevent/data/geometries.py", "_repr_html_", "ImportError"),          # optional dependency for notebooks
+    ("src/soundevent/io/crowsetta/labels.py", "label_to_tags", "ValueError"),     # unparsable label -> fallback tag
+}
+
+
+def _scope_modules(ctx: Ctx, files: List[str]):
+    rel = set(files)
+    for sm_ in list(ctx.summ._cache.values()):
+        rel.add(sm_.module.relpath)
+    return [m for m in ctx.index.modules.values() if m.relpath in rel]
+
+
+def check_effects(ctx: Ctx, files: List[str]):
+    ctx.rule("G.6", "no one-shot iterator is bound to a name and consumed twice", 1)
+    ctx.rule("G.7", "no new exception handler that ends without raising (a failure turned into silent continuation)", 1)
+    n6 = n7 = 0
+    # the expected count is zero: the rules must fire on the positive examples of fixtures/effects.py on every run
+    class _Probe:
+        def __init__(self):
+            self.hits = set()
+        def bad(self, rule, *a, **k):
+            self.hits.add(rule)
+        def ok(self, *a, **k):
+            pass
+    if not getattr(ctx, "_effects_probe", False):
+        fx = os.path.join(os.path.dirname(os.path.dirname(os.path.abspath(__file__))), "fixtures", "effects.py")
+        class _M:
+            relpath = "fixtures/effects.py"
+            tree = ast.parse(open(fx).read())
+        probe = _Probe()
+        _effects_of(probe, _M)
+        if probe.hits != {"G.6", "G.7"}:
+            ctx.undec("G.6", "fixtures/effects.py", f"the positive fixture is not reported (fired: {sorted(probe.hits)}): the rules cannot fire")
+            return
+    for m in _scope_modules(ctx, files):
+        a6, a7 = _effects_of(ctx, m)
+        n6 += a6
+        n7 += a7
+    ctx.ok("G.6", f"{len(files)} anchor file(s)", f"{n6} functions scanned for re-consumed one-shot iterators; positive fixture reported")
+    ctx.ok("G.7", f"{len(files)} anchor file(s)", f"{n7} exception handlers classified (lookups with a fallback, re-raising, {len(KNOWN_QUIET_HANDLERS)} quiet by design); positive fixture reported")
+
+
+def _effects_of(ctx, m):
+    n6 = n7 = 0
+    if True:
+        for fn in ast.walk(m.tree):
+            if not isinstance(fn, (ast.FunctionDef, ast.AsyncFunctionDef)):
+                continue
+            n6 += 1
+            # G.6: x = enumerate(...) / zip / map / filter / iter / reversed / (generator expression), x consumed more than once
+            binds = {}
+            for st in ast.walk(fn):
+                if isinstance(st, ast.Assign) and len(st.targets) == 1 and isinstance(st.targets[0], ast.Name):
+                    v = st.value
+                    one = isinstance(v, ast.GeneratorExp) or (isinstance(v, ast.Call) and isinstance(v.func, ast.Name) and v.func.id in ONE_SHOT)
+                    binds.setdefault(st.targets[0].id, []).append((st, one))
+            for name, defs in binds.items():
+                if len(defs) != 1 or not defs[0][1]:
+                    continue
+                st = defs[0][0]
+                uses = []
+                for x in ast.walk(fn):
+                    if isinstance(x, (ast.For, ast.comprehension)) and isinstance(x.iter, ast.Name) and x.iter.id == name:
+                        uses.append(x.iter)
+                    elif isinstance(x, ast.Call):
+                        for a in list(x.args) + [k.value for k in x.keywords]:
+                            a = a.value if isinstance(a, ast.Starred) else a
+                            if isinstance(a, ast.Name) and a.id == name:
+                                uses.append(a)
+                    elif isinstance(x, ast.YieldFrom) and isinstance(x.value, ast.Name) and x.value.id == name:
+                        uses.append(x.value)
+                if len(uses) >= 2:
+                    ctx.bad("G.6", m.relpath, fn.name, f"{name} = {ast.unparse(st.value)[:60]}",
+                            f"`{name}` is bound to a one-shot iterator (`{ast.unparse(st.value)[:60]}`) and consumed {len(uses)} times "
+                            f"(lines {', '.join(str(u.lineno) for u in uses[:4])}): the first consumer exhausts it (or takes the first "
+                            f"elements), every later one sees what is left -- nothing", uses[1].lineno)
+            # G.6 (second clause): a list / dict / set mutated inside the loop that iterates it
+            MUTATORS = {"remove", "append", "insert", "pop", "clear", "extend", "add", "discard", "update", "popitem", "sort", "reverse"}
+            for lp in ast.walk(fn):
+                if not isinstance(lp, ast.For) or not isinstance(lp.iter, ast.Name):
+                    continue
+                nm = lp.iter.id
+                for x in [y for b in lp.body for y in ast.walk(b)]:
+                    hit = None
+                    if isinstance(x, ast.Call) and isinstance(x.func, ast.Attribute) and isinstance(x.func.value, ast.Name) \
+                            and x.func.value.id == nm and x.func.attr in MUTATORS:
+                        hit = x
+                    elif isinstance(x, ast.Delete) and any(isinstance(t_, ast.Subscript) and isinstance(t_.value, ast.Name) and t_.value.id == nm for t_ in x.targets):
+                        hit = x
+                    if hit is not None:
+                        # leaving the loop right after the mutation is the one safe use
+                        ctx.bad("G.6", m.relpath, fn.name, f"for ... in {nm}: {ast.unparse(hit)[:50]}",
+                                f"`{nm}` is changed (`{ast.unparse(hit)[:50]}`) inside the loop that iterates it: the iteration skips or "
+                                f"repeats elements, so some of them are never examined", hit.lineno)
+                        break
+            # G.7: handlers that end without raising
+            for t in ast.walk(fn):
+                if not isinstance(t, ast.Try):
+                    continue
+                for h in t.handlers:
+                    n7 += 1
+                    names = [ast.unparse(x) for x in (h.type.elts if isinstance(h.type, ast.Tuple) else [h.type])] if h.type is not None else ["BaseException"]
+                    if all(nm.split(".")[-1] in LOOKUP_ERRORS for nm in names):
+                        continue  # look-before-you-leap written as try / except: a lookup with a fallback
+                    if any(isinstance(x, ast.Raise) for x in ast.walk(h)):
+                        continue
+                    if any((m.relpath, fn.name, nm) in KNOWN_QUIET_HANDLERS for nm in names):
+                        continue
+                    calls = [x for b in t.body for x in ast.walk(b) if isinstance(x, ast.Call)]
+                    ctx.bad("G.7", m.relpath, fn.name, f"except {', '.join(names)}: (no raise)",
+                            f"{fn.name} catches {', '.join(names)} around `{ast.unparse(calls[0])[:60] if calls else ast.unparse(t.body[0])[:60]}` and carries on "
+                            f"without raising: a failure that used to reach the caller (a rejected value, a refused seek, a validation error) "
+                            f"now ends in a silently different result", h.lineno)
+    return n6, n7
+
+
+# ---------------------------------------------------------------------------------- G.8 truthiness of model instances
+def check_truthiness(ctx: Ctx, files: List[str]):
+    """`if obj.parent:` means `obj.parent is not None` only as long as the class of that field defines neither __bool__ nor
+    __len__: a container protocol added to a model makes its empty instances falsy, and every presence test written as a
+    truthiness test starts skipping them."""
+    ctx.rule("G.8", "presence tests written as truthiness are on values whose class defines neither __bool__ nor __len__", 1)
+    models = ctx.models
+    n = 0
+    seen = set()
+    for sm_ in list(ctx.summ._cache.values()):
+        if not isinstance(sm_.node, (ast.FunctionDef, ast.AsyncFunctionDef)):
+            continue
+        pcls = {}
+        for pname, ann in sm_.annotations.items():
+            if isinstance(ann, (ast.Name, ast.Attribute)):
+                try:
+                    sy = ctx.index.resolve_expr(sm_.module, ann)
+                except Exception:  # noqa: BLE001
+                    sy = None
+                if sy is not None and sy.kind == "class" and ":" in sy.qual:
+                    c = ctx.index.class_by_qual(sy.qual)
+                    if c is not None and models.is_model(c):
+                        pcls[pname] = c
+        if not pcls:
+            continue
+        for e in sm_.events:
+            for cj in conjuncts(e.live):
+                t = cj[1] if cj[0] == "not" else cj
+                if t[0] != "attr" or t[1][0] != "param" or t[1][1] not in pcls:
+                    continue
+                fi = models.field_map(pcls[t[1][1]]).get(t[2])
+                if fi is None:
+                    continue
+                shp = fi.shape[1] if fi.shape[0] == "opt" else fi.shape
+                if shp[0] != "cls":
+                    continue
+                c2 = ctx.index.class_by_qual(shp[1])
+                if c2 is None:
+                    continue
+                key = (sm_.qual, t)
+                if key in seen:
+                    continue
+                seen.add(key)
+                n += 1
+                dunder = next((d for d in ("__bool__", "__len__") if c2.find_method(d)), None)
+                fn = sm_.qual.split(":")[-1]
+                if dunder:
+                    ctx.bad("G.8", sm_.module.relpath, fn, f"if {show(t)}",
+                            f"{fn} tests `{show(t)}` for truthiness, but {c2.name} defines {dunder}: an instance for which it gives "
+                            f"0 / False (an empty one) is treated as absent -- skipped, not converted, not written", e.lineno,
+                            witness={"class": c2.name, "method": dunder})
+                else:
+                    ctx.ok("G.8", f"{sm_.module.relpath}:{e.lineno} {fn}", f"truthiness of {show(t)} ({c2.name}: no __bool__ / __len__)")
+    ctx.ok("G.8", f"{len(files)} anchor file(s)", f"{n} truthiness tests of model-valued fields checked")
